@@ -6,12 +6,15 @@ D19 type-safe Object source, D28 exact decimal integers).
 
 * `Integer` (Go `int`, 64-bit on the supported platform) and `Long` are `Int64` with wrap-around.
 * `Float`/`Double` are Lean's `Float32`/`Float` (IEEE binary32/binary64; the kernel treats their
-  operations as opaque, so theorems say "the result is the host operation applied to …").
+  arithmetic as opaque, so theorems say "the result is the host operation applied to …").
+  Their *comparisons* (`== != < > <= >=`, `!= 0`) are the bit-level IEEE comparisons of
+  `Verif/Model/FloatCmp.lean` on `toBits`, which the kernel evaluates and whose order laws are proved.
 * Host functions that are not modelled (float formatting/parsing, date/duration parsing and
   formatting, `math.Pow`) are returned symbolically as `V.host tag args` and resolved by the
   harness with Go's own functions.
 -/
 import Verif.Model.Scanner
+import Verif.Model.FloatCmp
 
 namespace Verif
 
@@ -72,9 +75,11 @@ def showInt (i : Int) : List Rune := (toString i).toList.map Char.toNat
 
 def minI64 : Int64 := Int64.minValue
 
-/-- Go (amd64) `int64(x)` for a float64: truncation, "integer indefinite" on NaN / overflow -/
+/-- Go (amd64) `int64(x)` for a float64: truncation, "integer indefinite" on NaN / overflow.
+The range test is bit-level: `0x43e0000000000000` is 2^63, `0xc3e0000000000000` is -2^63. -/
 def f64ToI64 (x : Float) : Int64 :=
-  if x != x || x >= 9223372036854775808.0 || x < -9223372036854775808.0 then minI64 else x.toInt64
+  if fIsNaN x || f64Le 0x43e0000000000000 x.toBits || f64Lt x.toBits 0xc3e0000000000000
+  then minI64 else x.toInt64
 
 def i64ToF64 (i : Int64) : Float := Float.ofInt i.toInt
 def i64ToF32 (i : Int64) : Float32 := Float32.ofInt i.toInt
@@ -192,11 +197,11 @@ def convertUnsafe (v : V) (t : VT) : R :=
     | .float f, .integer => .ok (.int (f64ToI64 f.toFloat))
     | .float f, .long => .ok (.long (f64ToI64 f.toFloat))
     | .float f, .double => .ok (.double f.toFloat)
-    | .float f, .boolean => .ok (.bool (f != 0))
+    | .float f, .boolean => .ok (.bool (fNonZero32 f))
     | .double d, .integer => .ok (.int (f64ToI64 d))
     | .double d, .long => .ok (.long (f64ToI64 d))
     | .double d, .float => .ok (.float d.toFloat32)
-    | .double d, .boolean => .ok (.bool (d != 0))
+    | .double d, .boolean => .ok (.bool (fNonZero d))
     | .dateTime s _, .integer => .ok (.int (Int64.ofInt s))
     | .dateTime s _, .long => .ok (.long (Int64.ofInt s))
     | .timeSpan ns, .integer => .ok (.int (nsToMs ns))
@@ -299,8 +304,8 @@ def arithCore (op : Op) (a b : V) : R :=
   | .xor, .bool x, .bool y => .ok (.bool ((x && !y) || (!x && y)))
   | .equal, .int x, .int y => .ok (.bool (x == y))
   | .equal, .long x, .long y => .ok (.bool (x == y))
-  | .equal, .float x, .float y => .ok (.bool (x == y))
-  | .equal, .double x, .double y => .ok (.bool (x == y))
+  | .equal, .float x, .float y => .ok (.bool (fEq32 x y))
+  | .equal, .double x, .double y => .ok (.bool (fEq x y))
   | .equal, .str x, .str y => .ok (.bool (x == y))
   | .equal, .bool x, .bool y => .ok (.bool (x == y))
   | .equal, .timeSpan x, .timeSpan y => .ok (.bool (x == y))
@@ -308,8 +313,8 @@ def arithCore (op : Op) (a b : V) : R :=
   | .equal, .object x, .object y => .ok (.bool (x == y))
   | .notEqual, .int x, .int y => .ok (.bool (x != y))
   | .notEqual, .long x, .long y => .ok (.bool (x != y))
-  | .notEqual, .float x, .float y => .ok (.bool (x != y))
-  | .notEqual, .double x, .double y => .ok (.bool (x != y))
+  | .notEqual, .float x, .float y => .ok (.bool (!fEq32 x y))
+  | .notEqual, .double x, .double y => .ok (.bool (!fEq x y))
   | .notEqual, .str x, .str y => .ok (.bool (x != y))
   | .notEqual, .bool x, .bool y => .ok (.bool (x != y))
   | .notEqual, .timeSpan x, .timeSpan y => .ok (.bool (x != y))
@@ -317,29 +322,29 @@ def arithCore (op : Op) (a b : V) : R :=
   | .notEqual, .object x, .object y => .ok (.bool (x != y))
   | .more, .int x, .int y => .ok (.bool (x > y))
   | .more, .long x, .long y => .ok (.bool (x > y))
-  | .more, .float x, .float y => .ok (.bool (x > y))
-  | .more, .double x, .double y => .ok (.bool (x > y))
+  | .more, .float x, .float y => .ok (.bool (fLt32 y x))
+  | .more, .double x, .double y => .ok (.bool (fLt y x))
   | .more, .str x, .str y => .ok (.bool (strLt y x))
   | .more, .timeSpan x, .timeSpan y => .ok (.bool (x > y))
   | .more, .dateTime s1 n1, .dateTime s2 n2 => .ok (.bool (dtLt s2 n2 s1 n1))
   | .less, .int x, .int y => .ok (.bool (x < y))
   | .less, .long x, .long y => .ok (.bool (x < y))
-  | .less, .float x, .float y => .ok (.bool (x < y))
-  | .less, .double x, .double y => .ok (.bool (x < y))
+  | .less, .float x, .float y => .ok (.bool (fLt32 x y))
+  | .less, .double x, .double y => .ok (.bool (fLt x y))
   | .less, .str x, .str y => .ok (.bool (strLt x y))
   | .less, .timeSpan x, .timeSpan y => .ok (.bool (x < y))
   | .less, .dateTime s1 n1, .dateTime s2 n2 => .ok (.bool (dtLt s1 n1 s2 n2))
   | .moreEqual, .int x, .int y => .ok (.bool (x ≥ y))
   | .moreEqual, .long x, .long y => .ok (.bool (x ≥ y))
-  | .moreEqual, .float x, .float y => .ok (.bool (x ≥ y))
-  | .moreEqual, .double x, .double y => .ok (.bool (x ≥ y))
+  | .moreEqual, .float x, .float y => .ok (.bool (fLe32 y x))
+  | .moreEqual, .double x, .double y => .ok (.bool (fLe y x))
   | .moreEqual, .str x, .str y => .ok (.bool (!strLt x y))
   | .moreEqual, .timeSpan x, .timeSpan y => .ok (.bool (x ≥ y))
   | .moreEqual, .dateTime s1 n1, .dateTime s2 n2 => .ok (.bool (dtLt s2 n2 s1 n1 || dtEq s1 n1 s2 n2))
   | .lessEqual, .int x, .int y => .ok (.bool (x ≤ y))
   | .lessEqual, .long x, .long y => .ok (.bool (x ≤ y))
-  | .lessEqual, .float x, .float y => .ok (.bool (x ≤ y))
-  | .lessEqual, .double x, .double y => .ok (.bool (x ≤ y))
+  | .lessEqual, .float x, .float y => .ok (.bool (fLe32 x y))
+  | .lessEqual, .double x, .double y => .ok (.bool (fLe x y))
   | .lessEqual, .str x, .str y => .ok (.bool (!strLt y x))
   | .lessEqual, .timeSpan x, .timeSpan y => .ok (.bool (x ≤ y))
   | .lessEqual, .dateTime s1 n1, .dateTime s2 n2 => .ok (.bool (dtLt s1 n1 s2 n2 || dtEq s1 n1 s2 n2))
